@@ -43,7 +43,7 @@ def evolution_pairs():
     return sorted(d for d in os.listdir(base) if os.path.isdir(os.path.join(base, d)))
 
 
-ALL_GROUPS = ('shapes', 'annotated', 'client2', 'holes', 'evolution')
+ALL_GROUPS = ('shapes', 'annotated', 'client2', 'holes', 'evolution', 'names')
 
 
 def build(fixdir, groups=ALL_GROUPS):
@@ -72,6 +72,10 @@ def build(fixdir, groups=ALL_GROUPS):
         api = specs_to_ir(read_specs('holes'))
         _compile(api, 'python_types', ['-p', 'exgen'], os.path.join(fixdir, 'exgen'))
         imports += ['exgen.ex']
+    if 'names' in groups:
+        api = specs_to_ir(read_specs('names'))
+        _compile(api, 'python_types', ['-p', 'namesgen'], os.path.join(fixdir, 'namesgen'))
+        imports += ['namesgen.names']
     if 'evolution' in groups:
         for pair in evolution_pairs():
             for side in ('a', 'b'):
